@@ -1,4 +1,4 @@
-HOOK_COMMITS = ["a1cfaae", "517d757"]
+HOOK_COMMITS = ["a1cfaae", "517d757", "cfa1599"]
 
 META = {
     "C01": dict(
@@ -30,6 +30,11 @@ META = {
         technique="Lean 4 theorems on the models of wrapUnpacker / CreateMirror + differential correspondence on altered wares",
         text="C03_unpack (success implies the recomputed prefilter hash equals the requested id), C03_mismatch (parses but differs => exactly hash-mismatch), C03_corrupt_never_ok, C03_mirror (Commit only after a matching scan) are proved for every header list, filter, filesystem and hash function. The model is compared with the real Unpack and Mirror on wares altered after they were stored.",
         note="Trusted: Lean kernel; archive/tar + gzip decoding (the harness decodes the altered bytes for the model); the fetch stream.",
+    ),
+    "C07": dict(
+        technique="Lean 4 model of the resolver with theorems over the regenerated method table + three-way differential correspondence (model / osfs / kernel in-root resolution)",
+        text="C07_discipline (every method whose host call follows a leaf symlink resolves the leaf in-base first) and C07_methods are proved over the method table regenerated from fs/osfs/osfs.go; C07_goesup_refused; the executable resolver model agrees with the real resolver on ~60k cases and the real resolver with openat2(RESOLVE_IN_ROOT) whenever both succeed. The general termination and no-links-in-result theorems are listed as open obligations in DESIGN.md (partial).",
+        note="Trusted: Lean kernel; the kernel's openat2; T-fact extraction. Partial: C07_terminates / C07_nolinks are validated by correspondence, not yet proved for all trees.",
     ),
     "C08": dict(
         technique="Lean 4 invariant proof over the warehouse write-path transition system (any number of writers, demonic failures, crash = stop) + fault-injection differential correspondence",
